@@ -24,7 +24,7 @@ type c11Violation struct{ sig, what string }
 
 type c11Exec struct {
 	choose   func(n int) int
-	enum     bool // enumeration mode: binary outcomes have arity 2 (no weighting)
+	enum     bool     // enumeration mode: binary outcomes have arity 2 (no weighting)
 	urls     []string // URL pool for children
 	maxNodes int
 	maxKids  int
@@ -37,7 +37,7 @@ type c11Exec struct {
 
 type c11Stats struct {
 	dedupeRemovals, dedupeCalls, completeChecks, completeTrue, consistencyChecks, maxNodesSeen, maxDepthSeen int
-	finalShapes                                                                                             *vc.Distinct
+	finalShapes                                                                                              *vc.Distinct
 }
 
 func c11URL(raw string) *models.URL {
